@@ -7,6 +7,10 @@ PY = '/venv/bin/python -B -m vf.run'
 
 # id -> (engine, category, technique, level text, level_note, design_ref)
 CHECKS = {
+ 'C05': ('QX(histories)+PX', 'model_checking',
+         'bounded exhaustive exploration of statement histories on the real implementation: every result compared with the same statement executed alone in a pristine forked process',
+         'All ordered pairs over a 134-statement pool (78 code-sharing families: one genexpr / lambda / query string run with different values, types and namespaces; raw SQL; aggregates; filters; hybrid functions) x 6 in-session modifications, and (thorough) all ordered triples over a 20-statement core x 36 modification combinations, one db_session per history; quick: all ordered pairs over the core x 6 modifications plus every core statement before and after every other pool statement. Reference: a child forked from a zygote that imported Pony and mapped the schema but never executed a statement. Mismatches are shrunk and re-run in fresh forks before they are reported.',
+         'SQLite only (other paramstyles: C30; threads: C22). Histories longer than 3 statements are covered only by the two whole-pool histories. Workers restore the pristine content of all 179 tracked cache containers between histories.', 'DESIGN.md section 3 C05'),
  'C22': ('TX(line points)', 'model_checking',
          'stateless search over thread schedules of the real code under a baton scheduler with line-level scheduling points in the shared-cache functions; iterative preemption bounding',
          'Two (thorough: also three) real OS threads; scheduling points are sys.settrace line events in Query._get_translator, decompile, create_extractors, string2ast, adapt_sql, parse_raw_sql, the cache get/store lines of Query.__init__/_order_by/_process_lambda/_apply_kwargs/_construct_sql_and_arguments/delete, driver calls and the provider locks. 24 two-thread scenarios (thorough + 5 three-thread) built to share cache keys (slice bounds and getattr names invalidating a cached translator, same query strings, raw SQL with $params, hybrid methods, kwargs/order_by, aggregates, limit/offset, bulk delete, collection queries, vartypes), complete up to preemption bound 2 for the stale-translator scenarios and 1 otherwise (thorough 3/2): each thread gets the results and errors it gets running alone. Plus a sequential 15-case matrix: every use of an object of another thread\'s live session must raise.',
